@@ -63,6 +63,28 @@ func c05BuildTable(run *common.Run, srv *drive.Srv, ti int, single bool) (string
 			run.Violation("setup", ti, "set-up write failed: "+st.String(), nil)
 			return "", nil, gen.FilterCtx{}, false
 		}
+		// half of the rows then get one or two more columns through ReadModifyWriteRow (another write path of the
+		// server), with qualifiers the row does not have yet - in particular ones that sort before the existing ones
+		if r.Chance(1, 2) {
+			used := map[string]bool{}
+			for _, mu := range muts {
+				used[mu.Fam+"\x00"+mu.Qual] = true
+			}
+			var rules []drive.Rule
+			for _, q := range c05Quals {
+				f := muts[0].Fam
+				if !used[f+"\x00"+q] && len(rules) < 2 && r.Chance(2, 3) {
+					rules = append(rules, drive.Rule{Fam: f, Qual: q, Append: true, Val: common.Pick(r, c05Vals)})
+				}
+			}
+			if len(rules) > 0 {
+				if st, _ := drive.ReadModifyWrite(srv.Data, name, k, rules); !st.OK() {
+					run.Violation("setup", ti, "set-up read-modify-write failed: "+st.String(), nil)
+					return "", nil, gen.FilterCtx{}, false
+				}
+				run.Count("table_columns_created_through_read_modify_write", int64(len(rules)))
+			}
+		}
 	}
 	res := drive.ReadAll(srv.Data, name)
 	if !res.OK() || res.Malformed != "" {
@@ -303,7 +325,7 @@ func c05Basis(ctx gen.FilterCtx) []*model.Filter {
 }
 
 func runC05(run *common.Run) {
-	run.Rule = "case = one ReadRows(filter) over a 5-row multi-column/multi-version table (binary and newline-containing keys, qualifiers and values; rows with 2-3 families, and one table whose rows have a single family with 3-5 columns) on one engine, compared row by row with an independent filter evaluator applied to the unfiltered rows as served. Parts: (leaf) every leaf filter over its boundary arguments [complete list]; (pair) ALL chains and interleaves of ordered pairs and (cond) ALL conditions of ordered triples incl. nil branches over a 24-leaf basis [complete]; (merge) ALL chain(interleave(X,Y), cut) over the basis and six positional cuts on the single-family table [complete]; (tree) PRNG trees to depth 4. Non-trivial = the filter changed at least one row without emptying the whole result, or was rejected; distinct by (filter, table, engine)."
+	run.Rule = "case = one ReadRows(filter) over a 5-row multi-column/multi-version table (binary and newline-containing keys, qualifiers and values; rows with 2-3 families, and one table whose rows have a single family with 3-5 columns; half of the rows got further columns through ReadModifyWriteRow) on one engine, compared row by row with an independent filter evaluator applied to the unfiltered rows as served. Parts: (leaf) every leaf filter over its boundary arguments [complete list]; (pair) ALL chains and interleaves of ordered pairs and (cond) ALL conditions of ordered triples incl. nil branches over a 24-leaf basis [complete]; (merge) ALL chain(interleave(X,Y), cut) over the basis and six positional cuts on the single-family table [complete]; (tree) PRNG trees to depth 4. Non-trivial = the filter changed at least one row without emptying the whole result, or was rejected; distinct by (filter, table, engine)."
 	run.Assumptions = []string{"evaluator written from the Bigtable filter documentation, own byte-regex matcher for a restricted RE2 subset", "an invalid argument must be rejected only if the documented semantics apply it to at least one cell / non-empty row; otherwise either outcome is accepted", "cells-per-row limit/offset cutting into a multi-family row that came out of an interleave is not decided (family order unspecified)", "a zero cells-per-row/column limit may be rejected or return nothing"}
 	j := common.NewJournal("C05")
 	ntables := run.N(2, 4)
